@@ -101,6 +101,10 @@ fn tag_multi_trex(m: &Movie, f: Failure) -> Failure {
     }
 }
 
+pub fn tag_multi_trex_pub(m: &Movie, f: Failure) -> Failure {
+    tag_multi_trex(m, f)
+}
+
 pub fn oracle(ctx: &mut Ctx, m: &Movie) -> Check {
     oracle_inner(ctx, m).map_err(|f| tag_multi_trex(m, f))
 }
